@@ -13,7 +13,8 @@ PID = "C08"
 
 def gen(binp, seed, n):
     rng = random.Random(seed)
-    sc = [c for c in R.generate(binp, seed, 4 * n) if not c.get("usenumber")]
+    from .. import focusgen as F
+    sc = [c for c in R.generate(binp, seed, 4 * n) if not c.get("usenumber")] + F.cases(seed + 5, 2 * n)
     qc = Q.generate(binp, seed, 2 * n)
     cases = []
     pool_vals = [c["data"] for c in sc]
